@@ -388,3 +388,17 @@ Definition spent_in (S : list stx) (p : N) (i : nat) : bool :=
   existsb (fun x => existsb (fun inp => N.eqb (fst inp) p && Nat.eqb (snd inp) i) (t_ins (fst x))) S.
 Definition spec_utxos (S : list stx) (s : state) (cs : list N) : list txo_row :=
   filter (fun r => row_mine s cs r && negb (spent_in S (r_txid r) (r_pos r))) (all_outputs S).
+
+(* ---------- Ledger.subscribe_addresses: the address list is sent in batches of at most b addresses; every batch
+   answer is zipped with THAT batch and one update_history task is started per (address, answered status) ---------- *)
+Fixpoint chunks_fuel {A} (fuel b : nat) (l : list A) : list (list A) :=
+  match fuel with
+  | O => []
+  | S f => match l with
+           | [] => []
+           | _ => firstn b l :: chunks_fuel f b (skipn b l)
+           end
+  end.
+Definition chunks {A} (b : nat) (l : list A) : list (list A) := chunks_fuel (length l) b l.
+Definition subscribe_plan (b : nat) (addrs : list addr) (answer : list addr -> list hist) : list (addr * hist) :=
+  flat_map (fun batch => combine batch (answer batch)) (chunks b addrs).
